@@ -106,6 +106,17 @@ pub fn part<E: Encodable>(name: &'static str, e: &E) -> Part {
             }
         }
     }
+    // a blocking sink that is interrupted every other call (write_all has to retry, nothing may be lost or repeated)
+    if chunked.is_ok() && bytes.len() <= 70_000 {
+        let st: Vec<sio::WStep> = (0..bytes.len() + 8).map(|i| if i % 2 == 0 { sio::WStep::Interrupt } else { sio::WStep::Accept(1 + i % 7) }).collect();
+        let mut v = sio::ScriptedWriter::new(&st, e.encode_len().saturating_add(bytes.len()));
+        v.one_byte = true;
+        match e.encode(&mut v) {
+            Ok(()) if v.out == bytes => {}
+            Ok(()) => chunked = Err(format!("a sink that is interrupted (ErrorKind::Interrupted) every other call received {} bytes instead of {}", v.out.len(), bytes.len())),
+            Err(er) => chunked = Err(format!("a sink that is interrupted (ErrorKind::Interrupted) every other call: the encoder gave up with {:?}", er)),
+        }
+    }
     Part { name, reported: e.encode_len(), bytes, chunked, result }
 }
 
